@@ -5,7 +5,7 @@
 (* property's quantifier; the harness draws concrete representatives of    *)
 (* each element.  TLC writes the sets as JSON (ASSUME at the end).         *)
 (***************************************************************************)
-EXTENDS Json, IOUtils, TLC, Defects, Yukawa
+EXTENDS Json, IOUtils, TLC, Defects, Yukawa, Regimes
 
 \* C18: model classes, incl. 1L/2L cancellation and new-physics scale near the muon mass
 C18Cases ==
@@ -77,5 +77,5 @@ Init == x = 0
 Next == UNCHANGED x
 Spec == Init /\ [][Next]_x
 
-ASSUME JsonSerialize(IOEnv.GEN_OUT, [C18 |-> C18Cases, C06 |-> C06Cases, C07 |-> C07Cases, C15 |-> C15Opts, C16 |-> C16Sets, C19 |-> C19Scheds, C08 |-> C08Cases, C09 |-> C09Cases, C10 |-> C10Cases, C20 |-> C20Cases, C12 |-> C12Cases, C04 |-> C04Cases, C05 |-> C05Cases])
+ASSUME JsonSerialize(IOEnv.GEN_OUT, [C18 |-> C18Cases, C06 |-> C06Cases, C07 |-> C07Cases, C15 |-> C15Opts, C16 |-> C16Sets, C19 |-> C19Scheds, C08 |-> C08Cases, C09 |-> C09Cases, C10 |-> C10Cases, C20 |-> C20Cases, C12 |-> C12Cases, C04 |-> C04Cases, C05 |-> C05Cases, C11 |-> AllCoincidencesC11])
 =============================================================================
